@@ -1,4 +1,281 @@
 import RzmqModel.Model.Shutdown
 import RzmqModel.Props.C08
+/-!
+Helper lemmas for C16: the accounting invariant of `Acct` (wait group = number of living tasks, the waiter's
+condition = "count is zero", the waiter's `Notify` bookkeeping), and the registry invariant after a `loopExit`.
+-/
 namespace Rzmq
+
+-- accounting -------------------------------------------------------------------------------------------------------
+
+theorem Acct.run_nil (a : Acct) : Acct.run a [] = a := rfl
+
+theorem Acct.run_cons (a : Acct) (e : AcctEv) (r : List AcctEv) : Acct.run a (e :: r) = Acct.run (a.step e) r := rfl
+
+theorem Acct.run_append (a : Acct) (l₁ l₂ : List AcctEv) : Acct.run a (l₁ ++ l₂) = Acct.run (Acct.run a l₁) l₂ := by
+  simp [Acct.run, List.foldl_append]
+
+/-- the accounting invariant: the wait group counts the living; the waiter's condition is "count == 0"; the waiter is
+at a known pc, registered once past its check, and — the no-lost-wake-up part — if the condition holds while it is
+parked, it has been notified -/
+def Acct.Inv (a : Acct) : Prop :=
+  a.wg = a.alive.length ∧ (a.waiter.cond = true ↔ a.wg = 0)
+  ∧ (a.waiter.pc = 0 ∨ a.waiter.pc = 1 ∨ a.waiter.pc = 2)
+  ∧ (a.waiter.pc = 1 → a.waiter.registered = true)
+  ∧ (a.waiter.pc = 1 → a.waiter.cond = true → a.waiter.notified = true)
+
+theorem Acct.inv_init : Acct.Inv {} := by simp [Acct.Inv]
+
+theorem length_erase_of_contains (l : List Nat) (id : Nat) (h : l.contains id = true) :
+    (l.erase id).length = l.length - 1 := by
+  rw [List.length_erase]
+  simp [List.contains_iff_mem.1 h]
+
+theorem Acct.inv_step (a : Acct) (e : AcctEv) (h : a.Inv) : (a.step e).Inv := by
+  obtain ⟨wg, alive, nextId, ⟨c, pc, r, n⟩⟩ := a
+  obtain ⟨h1, h2, h3, h4, h5⟩ := h
+  simp only at h1 h2 h3 h4 h5
+  cases e with
+  | spawn =>
+    subst h1
+    refine ⟨by simp [Acct.step], by simp [Acct.step], h3, h4, by simp [Acct.step]⟩
+  | exit id how =>
+    by_cases hc : alive.contains id = true
+    · have hlen := length_erase_of_contains alive id hc
+      have hpos : 0 < alive.length := List.length_pos_of_mem (List.contains_iff_mem.1 hc)
+      subst h1
+      by_cases hz : alive.length - 1 = 0
+      · have hst : ({ wg := alive.length, alive := alive, nextId := nextId, waiter := ⟨c, pc, r, n⟩ } : Acct).step (.exit id how)
+            = { wg := 0, alive := alive.erase id, nextId := nextId, waiter := ⟨true, pc, r, n || r⟩ } := by
+          simp [Acct.step, List.contains_iff_mem.1 hc, hz, WaitSt.signal]
+        rw [hst]
+        refine ⟨?_, by simp, h3, h4, ?_⟩
+        · show 0 = (alive.erase id).length
+          omega
+        · intro hp _
+          show (n || r) = true
+          simp [h4 hp]
+      · have hcf : c = false := by
+          cases c
+          · rfl
+          · have := h2.1 rfl; omega
+        subst hcf
+        have hst : ({ wg := alive.length, alive := alive, nextId := nextId, waiter := ⟨false, pc, r, n⟩ } : Acct).step (.exit id how)
+            = { wg := alive.length - 1, alive := alive.erase id, nextId := nextId, waiter := ⟨false, pc, r, n⟩ } := by
+          simp [Acct.step, List.contains_iff_mem.1 hc, hz]
+        rw [hst]
+        refine ⟨?_, ?_, h3, h4, by simp⟩
+        · show alive.length - 1 = (alive.erase id).length
+          omega
+        · simp [hz]
+    · simp only [Acct.step, hc]
+      exact ⟨h1, h2, h3, h4, h5⟩
+  | poll =>
+    refine ⟨h1, ?_, ?_, ?_, ?_⟩
+    · rcases h3 with rfl | rfl | rfl
+      · cases c <;> simpa [Acct.step, WaitSt.stepRegisterFirst] using h2
+      · cases n <;> cases c <;> simpa [Acct.step, WaitSt.stepRegisterFirst] using h2
+      · simpa [Acct.step, WaitSt.stepRegisterFirst] using h2
+    · rcases h3 with rfl | rfl | rfl
+      · cases c <;> simp [Acct.step, WaitSt.stepRegisterFirst]
+      · cases n <;> cases c <;> simp [Acct.step, WaitSt.stepRegisterFirst]
+      · simp [Acct.step, WaitSt.stepRegisterFirst]
+    · rcases h3 with rfl | rfl | rfl
+      · cases c <;> simp [Acct.step, WaitSt.stepRegisterFirst]
+      · cases n <;> cases c <;> simp_all [Acct.step, WaitSt.stepRegisterFirst]
+      · simp [Acct.step, WaitSt.stepRegisterFirst]
+    · rcases h3 with rfl | rfl | rfl
+      · cases c <;> simp [Acct.step, WaitSt.stepRegisterFirst]
+      · cases n <;> cases c <;> simp_all [Acct.step, WaitSt.stepRegisterFirst]
+      · simp [Acct.step, WaitSt.stepRegisterFirst]
+
+theorem Acct.inv_run (a : Acct) (h : a.Inv) (evs : List AcctEv) : (Acct.run a evs).Inv := by
+  induction evs generalizing a with
+  | nil => exact h
+  | cons e r ih => exact ih _ (Acct.inv_step a e h)
+
+theorem Acct.inv_reachable (evs : List AcctEv) : (Acct.run {} evs).Inv := Acct.inv_run {} Acct.inv_init evs
+
+/-- in a state satisfying the invariant: nothing alive ⇒ the waiter's condition holds -/
+theorem Acct.cond_of_idle (a : Acct) (h : a.Inv) (hidle : a.alive = []) : a.waiter.cond = true := by
+  obtain ⟨h1, h2, _⟩ := h
+  exact h2.2 (by simp [h1, hidle])
+
+theorem Acct.idle_of_cond (a : Acct) (h : a.Inv) (hc : a.waiter.cond = true) : a.alive = [] := by
+  obtain ⟨h1, h2, _⟩ := h
+  exact List.length_eq_zero_iff.1 (by have := h2.1 hc; omega)
+
+/-- with the condition true, ONE poll completes the wait (from any reachable waiter state) -/
+theorem Acct.poll_done (a : Acct) (h : a.Inv) (hc : a.waiter.cond = true) : (a.step .poll).waiter.pc = 2 := by
+  obtain ⟨wg, alive, nextId, ⟨c, pc, r, n⟩⟩ := a
+  obtain ⟨_, _, h3, _, h5⟩ := h
+  simp only at h3 h5 hc
+  subst hc
+  rcases h3 with rfl | rfl | rfl
+  · simp [Acct.step, WaitSt.stepRegisterFirst]
+  · have : n = true := h5 rfl rfl
+    subst this
+    simp [Acct.step, WaitSt.stepRegisterFirst]
+  · simp [Acct.step, WaitSt.stepRegisterFirst]
+
+/-- once done, polling keeps it done -/
+theorem Acct.poll_stays_done (a : Acct) (hp : a.waiter.pc = 2) : (a.step .poll).waiter.pc = 2 := by
+  obtain ⟨wg, alive, nextId, ⟨c, pc, r, n⟩⟩ := a
+  simp only at hp
+  subst hp
+  simp [Acct.step, WaitSt.stepRegisterFirst]
+
+/-- a step that takes the waiter to "done" is a poll made while nothing is alive -/
+theorem Acct.step_done (a : Acct) (h : a.Inv) (e : AcctEv) (hp : (a.step e).waiter.pc = 2) :
+    a.waiter.pc = 2 ∨ (e = .poll ∧ a.alive = []) := by
+  cases e with
+  | spawn => exact Or.inl (by simpa [Acct.step] using hp)
+  | exit id how =>
+    left
+    by_cases hc : a.alive.contains id = true
+    · simp only [Acct.step, hc, if_true] at hp
+      by_cases hz : (a.wg - 1 == 0) = true
+      · simpa [hz, WaitSt.signal] using hp
+      · simpa [hz] using hp
+    · simp only [Acct.step, hc] at hp
+      exact hp
+  | poll =>
+    by_cases hc : a.waiter.cond = true
+    · exact Or.inr ⟨rfl, Acct.idle_of_cond a h hc⟩
+    · left
+      obtain ⟨wg, alive, nextId, ⟨c, pc, r, n⟩⟩ := a
+      obtain ⟨_, _, h3, _, _⟩ := h
+      simp only at h3 hc hp ⊢
+      have : c = false := by simpa using hc
+      subst this
+      rcases h3 with rfl | rfl | rfl
+      · simp [Acct.step, WaitSt.stepRegisterFirst] at hp
+      · cases n <;> simp [Acct.step, WaitSt.stepRegisterFirst] at hp
+      · rfl
+
+/-- generalised over the start state: the waiter is done after `evs` only if it was done before, or `evs` contains a
+poll made at a moment when nothing was alive -/
+theorem Acct.done_implies_idle_poll (a : Acct) (h : a.Inv) (evs : List AcctEv) (hp : (Acct.run a evs).waiter.pc = 2) :
+    a.waiter.pc = 2 ∨ ∃ pre post, evs = pre ++ .poll :: post ∧ (Acct.run a pre).alive = [] := by
+  induction evs generalizing a with
+  | nil => exact Or.inl hp
+  | cons e r ih =>
+    rcases ih (a.step e) (Acct.inv_step a e h) hp with h2 | ⟨pre, post, rfl, hidle⟩
+    · rcases Acct.step_done a h e h2 with h3 | ⟨rfl, hidle⟩
+      · exact Or.inl h3
+      · exact Or.inr ⟨[], r, rfl, hidle⟩
+    · exact Or.inr ⟨e :: pre, post, rfl, hidle⟩
+
+/-- THE STRONGER FORM of `term_returns_only_when_all_stopped`: the waiter in `term()` is done only if one of the polls
+in the history — the one that released it — was made while no actor was alive -/
+theorem waiter_done_implies_idle_at_some_poll (evs : List AcctEv) (h : (Acct.run {} evs).waiter.pc = 2) :
+    ∃ pre post, evs = pre ++ .poll :: post ∧ (Acct.run {} pre).alive = [] := by
+  rcases Acct.done_implies_idle_poll {} Acct.inv_init evs h with h0 | h1
+  · simp at h0
+  · exact h1
+
+/-- the release poll can be taken to be the FIRST poll at which the waiter is done: before it the waiter is not done -/
+theorem waiter_done_first_release_poll (evs : List AcctEv) (h : (Acct.run {} evs).waiter.pc = 2) :
+    ∃ pre post, evs = pre ++ .poll :: post ∧ (Acct.run {} pre).alive = [] ∧ (Acct.run {} pre).waiter.pc ≠ 2
+      ∧ (Acct.run {} (pre ++ [.poll])).waiter.pc = 2 := by
+  suffices H : ∀ (a : Acct), a.Inv → a.waiter.pc ≠ 2 → ∀ evs, (Acct.run a evs).waiter.pc = 2 →
+      ∃ pre post, evs = pre ++ .poll :: post ∧ (Acct.run a pre).alive = [] ∧ (Acct.run a pre).waiter.pc ≠ 2
+        ∧ (Acct.run a (pre ++ [.poll])).waiter.pc = 2 from H {} Acct.inv_init (by simp) evs h
+  intro a ha hn evs
+  induction evs generalizing a with
+  | nil => intro hp; exact absurd hp hn
+  | cons e r ih =>
+    intro hp
+    by_cases hd : (a.step e).waiter.pc = 2
+    · rcases Acct.step_done a ha e hd with h3 | ⟨rfl, hidle⟩
+      · exact absurd h3 hn
+      · exact ⟨[], r, rfl, hidle, hn, hd⟩
+    · obtain ⟨pre, post, rfl, h1, h2, h3⟩ := ih (a.step e) (Acct.inv_step a e ha) hd hp
+      exact ⟨e :: pre, post, rfl, h1, h2, h3⟩
+
+/-- no wake-up is lost, from any reachable state: if nothing is alive, one poll finishes the wait, and so do two -/
+theorem Acct.idle_two_polls (a : Acct) (h : a.Inv) (hidle : a.alive = []) :
+    (Acct.run a [.poll, .poll]).waiter.pc = 2 := by
+  have h1 := Acct.poll_done a h (Acct.cond_of_idle a h hidle)
+  exact Acct.poll_stays_done _ h1
+
+theorem Acct.idle_one_poll (evs : List AcctEv) (hidle : (Acct.run {} evs).alive = []) :
+    (Acct.run {} (evs ++ [.poll])).waiter.pc = 2 := by
+  rw [Acct.run_append]
+  exact Acct.poll_done _ (Acct.inv_reachable evs) (Acct.cond_of_idle _ (Acct.inv_reachable evs) hidle)
+
+-- who is told ----------------------------------------------------------------------------------------------------------
+
+theorem sessionInHandshake_learnsBy (sub : Bool) :
+    (sessionInHandshake sub).learnsBy = some (if sub then 0 else 100) := by
+  cases sub <;> decide
+
+theorem connecterRetrying_learnsBy (sub : Bool) (ivl : Nat) :
+    (connecterRetrying sub ivl).learnsBy = some (if sub then 0 else ivl) := by
+  cases sub <;> simp [connecterRetrying, Notice.learnsBy, Gen.connecterAbortIsFinal, Gen.connecterChecksParentRunning]
+
+-- names ------------------------------------------------------------------------------------------------------------------
+
+theorem Registry.run_append (r : Registry) (l₁ l₂ : List RegEv) :
+    Registry.run r (l₁ ++ l₂) = Registry.run (Registry.run r l₁) l₂ := by
+  simp [Registry.run, List.foldl_append]
+
+/-- socket `s` is gone from the registry: neither registered nor the owner of any name -/
+def Registry.Gone (r : Registry) (s : Nat) : Prop := s ∉ r.sockets ∧ ∀ n, (n, s) ∉ r.inproc
+
+theorem Registry.gone_loopExit (r : Registry) (s : Nat) : (r.step (.loopExit s)).Gone s := by
+  constructor
+  · simp [Registry.step, Gen.commandLoopUnregistersSocket]
+  · intro n
+    simp [Registry.step, Gen.commandLoopUnregistersInprocNames]
+
+theorem Registry.gone_step (r : Registry) (s : Nat) (e : RegEv) (h : r.Gone s) (he : e ≠ .register s) :
+    (r.step e).Gone s := by
+  obtain ⟨h1, h2⟩ := h
+  cases e with
+  | register s' =>
+    have hne : s' ≠ s := fun hh => he (by rw [hh])
+    refine ⟨?_, h2⟩
+    simp only [Registry.step, List.mem_append, List.mem_singleton, not_or]
+    exact ⟨h1, fun hh => hne hh.symm⟩
+  | bindInproc s' n' =>
+    simp only [Registry.step]
+    split
+    · exact ⟨h1, h2⟩
+    · rename_i hcond
+      refine ⟨h1, ?_⟩
+      intro n hmem
+      simp only [List.mem_append, List.mem_singleton, Prod.mk.injEq] at hmem
+      rcases hmem with hmem | ⟨_, rfl⟩
+      · exact h2 n hmem
+      · apply hcond
+        simp [h1]
+  | loopExit s' =>
+    constructor
+    · simp only [Registry.step]
+      split
+      · intro hmem; exact h1 (List.mem_filter.1 hmem).1
+      · exact h1
+    · intro n
+      simp only [Registry.step]
+      split
+      · intro hmem; exact h2 n (List.mem_filter.1 hmem).1
+      · exact h2 n
+
+theorem Registry.gone_run (r : Registry) (s : Nat) (evs : List RegEv) (h : r.Gone s) (he : RegEv.register s ∉ evs) :
+    (Registry.run r evs).Gone s := by
+  induction evs generalizing r with
+  | nil => exact h
+  | cons e rest ih =>
+    have h1 : e ≠ .register s := fun hh => he (by simp [hh])
+    have h2 : RegEv.register s ∉ rest := fun hh => he (List.mem_cons_of_mem _ hh)
+    exact ih (r.step e) (Registry.gone_step r s e h h1) h2
+
+/-- after socket `s`'s command loop has ended and as long as `s` is not registered again, `s` is gone from the registry
+(from ANY start state) -/
+theorem Registry.gone_after_loopExit (r : Registry) (pre post : List RegEv) (s : Nat) (hpost : RegEv.register s ∉ post) :
+    (Registry.run r (pre ++ [RegEv.loopExit s] ++ post)).Gone s := by
+  rw [Registry.run_append, Registry.run_append]
+  exact Registry.gone_run _ s post (Registry.gone_loopExit _ s) hpost
+
 end Rzmq
